@@ -21,6 +21,7 @@ HERE = os.path.dirname(os.path.abspath(__file__))
 VERIF = os.path.dirname(HERE)
 sys.path.insert(0, HERE)
 import gen  # noqa: E402
+import replay  # noqa: E402
 from rustlex import Unsupported  # noqa: E402
 from props import PROPS, STAR_OWNERS, TRUSTED  # noqa: E402
 
@@ -295,6 +296,8 @@ def main():
     a = ap.parse_args()
     pid = a.property
     seed = int(os.environ.get("VERIF_SEED", "0") or 0)
+    if a.replay and a.replay.endswith(".case"):
+        return replay.replay(pid, a.replay)
     if a.replay:
         r = json.load(open(a.replay))
         print(json.dumps(r, indent=1))
@@ -327,31 +330,59 @@ def main():
             res["undecided"].append("lost coverage: %d listed obligations were not generated, e.g. %s" % (len(missing), missing[:3]))
     if bad:
         res["undecided"].append("assume/admit inside extracted code: %s" % bad)
+    # ---- bounded search of the real crate: counterexample finder for a rejected obligation, labelled stand-in when the proof is
+    # undecided, cross-check otherwise.  Never counted as proof.
+    bounded = None
+    if pid in replay.BOUNDED and os.environ.get("VERIF_NO_BOUNDED") != "1":
+        if viol or res["undecided"] or tier == "thorough":
+            cases, tms = (60000, 90000) if tier == "thorough" else (6000, 12000)
+        else:
+            cases, tms = 2000, 4000
+        bounded = replay.search(pid, cases, seed + 1, tms, os.path.join(BUILD, "replay", "%s-bounded.case" % pid))
+    found = bool(bounded and bounded.get("available") and bounded.get("found"))
+    held = bool(bounded and bounded.get("available") and not bounded.get("found") and bounded.get("explored", 0) > 0)
     # ---- report
     replay_paths = []
     os.makedirs(os.path.join(BUILD, "replay"), exist_ok=True)
     for n, f in enumerate(viol):
         rp = os.path.join(BUILD, "replay", "%s-%d.json" % (pid, n))
         json.dump(dict(property=pid, obligation=f["obligation"], kind=f["kind"], run=f.get("run"), clause=f.get("text"), contract_origin=f.get("origin"),
-                       generated_line=f.get("line"), input=None, note="Verus gives no counterexample; no failing input was searched for this obligation",
+                       generated_line=f.get("line"), input=None,
+                       note="Verus gives no counterexample; " + ("the bounded search of the real crate found a failing input: see " + bounded["file"] if found else
+                                                                 "the bounded search of the real crate found no failing input" if held else "no failing input was searched"),
                        verus=f), open(rp, "w"), indent=1)
         replay_paths.append(rp)
+    if found:
+        # the failing input goes in front of the case file, together with the obligations it stands for
+        body = open(bounded["file"]).read()
+        head = "".join("# failed obligation: %s (%s)%s\n" % (f["obligation"], f["kind"], (" clause: " + f["text"]) if f.get("text") else "") for f in viol)
+        if not viol:
+            head = "# the proof %s; this input was found by the bounded search of the real crate\n" % ("is undecided on this tree" if res["undecided"] else "passed")
+        open(bounded["file"], "w").write(head + body)
     for f, k in known_hit:
         print("KNOWN-FINDING: property=%s %s :: %s" % (pid, f["obligation"], k["what"]))
     status = 0
-    if viol:
+    standin = False
+    if viol or found:
         status = 1
     elif res["undecided"]:
-        status = 2
+        if held:
+            standin = True  # labelled bounded; the run's evidence says level=exploration
+        else:
+            status = 2
     # obligations recorded as known findings are reported separately (known_findings_matched), not counted as obligations of the proof
     n_known = len(known_hit)
     obligations = max(res["obligations"] - n_known, 1)
     res["obligations"] = obligations
-    discharged = obligations if status == 0 else max(min(obligations - len(viol) - (1 if res["undecided"] else 0), obligations - 1), 0)
+    discharged = obligations if (status == 0 and not standin) else max(min(obligations - len(viol) - (1 if res["undecided"] else 0), obligations - 1), 0)
     spec = PROPS[pid]
-    ev = dict(
-        property_id=pid, tier=tier, seed=seed, level="proof",
-        coverage=dict(
+    bsum = None
+    if bounded:
+        bsum = dict((k, bounded.get(k)) for k in ("available", "found", "explored", "skipped", "distinct", "cmd", "note", "why", "build") if bounded.get(k) is not None)
+        bsum["bound"] = replay.BOUND_TEXT
+        bsum["wall_s"] = round(bounded.get("wall", 0), 2)
+        bsum["label"] = "bounded (not proof)"
+    cov = dict(
             obligations=res["obligations"], discharged=discharged,
             checker_cmd=" ; ".join(res["cmds"]) or "verus (not run)",
             trusted_base=TRUSTED.get("common", []) + TRUSTED.get(pid, []) + ["assumed extracted item: " + x for x in res["assumed"]] + ["assumption scan: " + x for x in scan],
@@ -365,18 +396,40 @@ def main():
             known_findings_matched=[f["obligation"] for f, _ in known_hit],
             fixed_findings=[x for x in fixed if x["property"] == pid],
             violations=[dict(obligation=f["obligation"], kind=f["kind"], clause=f.get("text")) for f in viol],
-        ),
+            bounded_search_of_real_crate=bsum,
+    )
+    level = "proof"
+    if standin:
+        # the proof is undecided on this tree: this run's verdict rests on the bounded stand-in only
+        level = "exploration"
+        cov.update(evaluations=bounded["explored"], distinct_nontrivial=bounded["distinct"],
+                   rule="BOUNDED STAND-IN (proof undecided on this tree): " + replay.BOUND_TEXT + "; distinct = distinct case texts, non-trivial = at least two registrations",
+                   samples=bounded["samples"] or ["(no sample recorded)"], exhaustive=False)
+    ev = dict(
+        property_id=pid, tier=tier, seed=seed, level=level,
+        coverage=cov,
         assumptions=spec.get("assumptions", []),
-        wall_s=round(res["wall"], 2),
-        violations=len(viol),
+        wall_s=round(res["wall"] + (bounded.get("wall", 0) if bounded else 0), 2),
+        violations=len(viol) + (1 if found and not viol else 0),
     )
     os.makedirs(os.path.join(VERIF, "evidence"), exist_ok=True)
     json.dump(ev, open(os.path.join(VERIF, "evidence", pid + ".json"), "w"), indent=1)
+    first = True
     for f, rp in zip(viol, replay_paths):
         print("failed obligation: %s (%s)%s" % (f["obligation"], f["kind"], (" clause: " + f["text"]) if f.get("text") else ""))
-        print("VIOLATION property=%s replay=%s no-failing-input-found" % (pid, rp))
+        if found and first:
+            print("failing input (real crate): %s" % bounded["why"])
+            print("VIOLATION property=%s replay=%s" % (pid, bounded["file"]))
+        else:
+            print("VIOLATION property=%s replay=%s no-failing-input-found" % (pid, rp))
+        first = False
+    if found and not viol:
+        print("failing input (real crate, bounded search; the proof %s): %s" % ("is undecided on this tree" if res["undecided"] else "did not reject it", bounded["why"]))
+        print("VIOLATION property=%s replay=%s" % (pid, bounded["file"]))
     for u in res["undecided"]:
         print("UNDECIDED: %s" % u)
+    if standin:
+        print("PROOF-UNDECIDED property=%s: bounded stand-in held on %d registration sequences (%d distinct non-trivial); level=bounded, not proved" % (pid, bounded["explored"], bounded["distinct"]))
     if status == 0:
         print("OK property=%s obligations=%d discharged=%d runs=%d wall=%.1fs" % (pid, res["obligations"], discharged, len(res["runs"]), res["wall"]))
     return status
